@@ -5,8 +5,21 @@ package static
 // Contracts for govc (contract-based deductive verification, see /verif/DESIGN.md).
 // This file contains comments only and is compiled only with the build tag `verif`.
 
+// Which file is opened: the root joined with the CLEANED request path (filepath.Clean of a rooted path contains no
+// ".." element, so the result stays beneath the root: assumed about path/filepath), or with the path configured for it.
+//@ ghost var joinRoot string
+//@ ghost var joinRel string
+//@ ghost var joinRes string
+//@ extern func filepath.Join
+//@   modifies joinRoot, joinRel, joinRes
+//@   ensures len(elem) == 2 ==> joinRoot == elem[0] && joinRel == elem[1]
+//@   ensures joinRes == result
 //@ func (*Modifier).ModifyResponse
 //@   serves C20
+//@   modifies joinRoot, joinRel, joinRes
+//@   noframe
+//@   at call 0 of Open before assert[opened-file-is-the-root-joined-with-the-cleaned-request-path-or-its-configured-target] arg0 == joinRes && joinRoot == s.rootPath &&
+//@        (joinRel == filepath.Clean(res.Request.URL.Path) || (has(s.explicitPaths, filepath.Clean(res.Request.URL.Path)) && joinRel == s.explicitPaths[filepath.Clean(res.Request.URL.Path)]))
 //@   safe index slice make div assert
 //@   loop 0 invariant[pairs] forall k int :: 0 <= k && k < len(ranges) ==> len(ranges[k]) == 2
 //@   loop 0 invariant[allocated] forall k int :: 0 <= k && k < len(ranges) ==> allocated(ranges[k])
